@@ -391,14 +391,45 @@ open Ldk.PeerMsgs
    (`≤ LN_MAX_MSG_LEN`, otherwise `encrypt_message` panics under debug assertions and drops the message
    after logging otherwise), and what BOLT 1 says must be answered must be answered. -/
 
+/-- **The source's Ping bound is BOLT 1's**: the comparison of the `Message::Ping` arm, as translated from
+    peer_handler.rs on this run, answers exactly `num_pong_bytes < 65532`. -/
+theorem source_ping_answered_iff (ponglen : Nat) :
+    PeerSizes.pingAnswered ponglen = true ↔ ponglen < 65532 := by
+  unfold PeerSizes.pingAnswered; rw [decide_eq_true_eq] <;> omega
+example : PeerSizes.pingAnswered 65531 = true ∧ ¬ PeerSizes.pingAnswered 65532 = true :=
+  ⟨(source_ping_answered_iff _).mpr (by omega), fun h => by have := (source_ping_answered_iff _).mp h; omega⟩
+
+/-- **The source's encryptor limit**: `encrypt_message_with_header_0s` (as translated) refuses exactly
+    the messages longer than 65535 bytes, and `MessageBuf::from_encoded` refuses the same ones. -/
+theorem source_encryptor_limit (msgLen : Nat) :
+    (PeerSizes.encryptRejects msgLen = true ↔ 65535 < msgLen)
+    ∧ (PeerSizes.fromEncodedRejects msgLen = true ↔ 65535 < msgLen) := by
+  unfold PeerSizes.encryptRejects PeerSizes.fromEncodedRejects PeerSizes.LN_MAX_MSG_LEN
+  constructor <;> (rw [decide_eq_true_eq] <;> omega)
+example : PeerSizes.encryptRejects 65536 = true ∧ ¬ PeerSizes.encryptRejects 65535 = true :=
+  ⟨(source_encryptor_limit _).1.mpr (by omega), fun h => by have := (source_encryptor_limit _).1.mp h; omega⟩
+
+/-- **The source's reader limit**: `decrypt_message` (as translated) refuses exactly the boxes longer
+    than 65535 + 16 bytes. -/
+theorem source_reader_limit (boxLen : Nat) :
+    PeerSizes.decryptRejects boxLen = true ↔ 65551 < boxLen := by
+  unfold PeerSizes.decryptRejects PeerSizes.LN_MAX_MSG_LEN; rw [decide_eq_true_eq] <;> omega
+example : PeerSizes.decryptRejects 65552 = true := (source_reader_limit _).mpr (by omega)
+
+private theorem bool_false_iff {b : Bool} {p : Prop} (h : b = true ↔ p) : b = false ↔ ¬ p := by
+  cases b <;> simp_all
+private theorem encRej_true (x : Nat) : PeerSizes.encryptRejects x = true ↔ 65535 < x :=
+  (source_encryptor_limit x).1
 private theorem encRej_false (x : Nat) : PeerSizes.encryptRejects x = false ↔ x ≤ 65535 := by
-  simp [PeerSizes.encryptRejects, PeerSizes.LN_MAX_MSG_LEN]
-private theorem encRej_true (x : Nat) : PeerSizes.encryptRejects x = true ↔ 65535 < x := by
-  simp [PeerSizes.encryptRejects, PeerSizes.LN_MAX_MSG_LEN]
+  rw [bool_false_iff (encRej_true x)]; omega
+private theorem decRej_true (x : Nat) : PeerSizes.decryptRejects x = true ↔ 65551 < x :=
+  source_reader_limit x
 private theorem decRej_false (x : Nat) : PeerSizes.decryptRejects x = false ↔ x ≤ 65551 := by
-  simp [PeerSizes.decryptRejects, PeerSizes.LN_MAX_MSG_LEN]
-private theorem decRej_true (x : Nat) : PeerSizes.decryptRejects x = true ↔ 65551 < x := by
-  simp [PeerSizes.decryptRejects, PeerSizes.LN_MAX_MSG_LEN]
+  rw [bool_false_iff (decRej_true x)]; omega
+private theorem pingAns_true (n : Nat) : PeerSizes.pingAnswered n = true ↔ n < 65532 :=
+  source_ping_answered_iff n
+private theorem pingAns_false (n : Nat) : PeerSizes.pingAnswered n = false ↔ 65532 ≤ n := by
+  rw [bool_false_iff (pingAns_true n)]; omega
 private theorem pongSize_src (n : Nat) :
     PeerSizes.TYPE_BYTES + PeerSizes.pongBodySize (PeerSizes.pongByteslen n)
       = 2 + ((if n < 65535 then 2 else 10) + n) := rfl
@@ -596,11 +627,12 @@ theorem source_ping_bound_implies_encryptor_precondition (ponglen : Nat)
     ∧ 4 + ponglen ≤ PeerSizes.LN_MAX_MSG_LEN
     ∧ PeerSizes.encryptRejects
         (PeerSizes.TYPE_BYTES + PeerSizes.pongBodySize (PeerSizes.pongByteslen ponglen)) = false := by
-  simp only [PeerSizes.pingAnswered, decide_eq_true_eq] at h
+  rw [pingAns_true] at h
   rw [pongSize_src, if_pos (by omega), encRej_false]
   show _ ∧ _ ≤ 65535 ∧ _
   omega
-example : PeerSizes.pingAnswered 65531 = true ∧ PeerSizes.pingAnswered 65532 = false := by decide
+example : PeerSizes.pingAnswered 65531 = true ∧ PeerSizes.pingAnswered 65532 = false := by
+  rw [pingAns_true, pingAns_false]; omega
 
 
 /-- … and conversely every ping the source ignores could not have been answered (BOLT 1: the node
@@ -608,7 +640,7 @@ example : PeerSizes.pingAnswered 65531 = true ∧ PeerSizes.pingAnswered 65532 =
 theorem source_ping_bound_is_tight (ponglen : Nat) (h : PeerSizes.pingAnswered ponglen = false) :
     PeerSizes.encryptRejects
         (PeerSizes.TYPE_BYTES + PeerSizes.pongBodySize (PeerSizes.pongByteslen ponglen)) = true := by
-  simp only [PeerSizes.pingAnswered, decide_eq_false_iff_not] at h
+  rw [pingAns_false] at h
   rw [pongSize_src, encRej_true]
   split <;> omega
 example : PeerSizes.encryptRejects (PeerSizes.TYPE_BYTES + PeerSizes.pongBodySize 65532) = true := by decide
@@ -619,7 +651,7 @@ example : PeerSizes.encryptRejects (PeerSizes.TYPE_BYTES + PeerSizes.pongBodySiz
 theorem source_own_ping_fits :
     PeerSizes.encryptRejects (PeerSizes.TYPE_BYTES + PeerSizes.pingBodySize PeerSizes.OWN_PING_BYTESLEN) = false
     ∧ PeerSizes.pingAnswered PeerSizes.OWN_PING_PONGLEN = true := by
-  rw [encRej_false]; decide
+  rw [encRej_false, pingAns_true]; decide
 
 /-- one reply_channel_range batch (`≤ MAX_SCIDS_PER_REPLY` ids, routing/gossip.rs) fits a frame and
     its u16 `encoding_len` does not wrap -/
@@ -670,8 +702,7 @@ theorem size_bounds_match_source :
   refine ⟨rfl, ?_, ?_, ?_, ?_, ?_, ?_, ?_, ?_, ?_, rfl, rfl, rfl, rfl, rfl, rfl, rfl, rfl,
     by decide, by decide, ?_, by decide, fun _ => rfl, ?_, rfl⟩
   · intro n
-    unfold pingReply PONG_LIMIT PeerSizes.pingAnswered
-    split <;> simp [*]
+    rw [Bool.eq_iff_iff, ping_answered_iff, pingAns_true]
   · intro n r h
     exact (pingReply_fits n r h).1
   · intro n
@@ -685,10 +716,12 @@ theorem size_bounds_match_source :
     unfold PeerSizes.TYPE_BYTES PeerSizes.pingBodySize PeerSizes.collectionLengthSize
     split <;> omega
   · intro s m
-    unfold send PeerSizes.encryptRejects PeerSizes.LN_MAX_MSG_LEN
+    rw [Bool.eq_iff_iff, encRej_true]
+    unfold send
     have : Ldk.LN_MAX_MSG_LEN = 65535 := rfl
     split <;> simp <;> omega
-  · intro n; rfl
+  · intro n
+    rw [Bool.eq_iff_iff, encRej_true, (source_encryptor_limit n).2]
   · intro r box h
     unfold decryptMessage
     rw [decRej_true] at h
